@@ -362,6 +362,59 @@ pub fn enumerate(max_n: usize, all_elems: bool) -> Vec<Case> {
     out
 }
 
+/// Indefinite-length blocks (`#0`): the element extends to the terminating NL of the message, so
+/// separators and newlines inside it belong to the unit, and nothing after it is another unit.
+/// (prefix, expected tokens in front of the block given as (kind, start, end))
+pub fn indefinite_cases() -> Vec<(Vec<u8>, Vec<TokRec>, usize)> {
+    let prefixes: Vec<(&str, Vec<TokRec>, usize)> = vec![
+        ("OBS ", vec![], 0),
+        ("OBS 42,", vec![TokRec::Num(4, 6)], 0),
+        ("NB 77;OBS ", vec![], 1),
+        ("BR:NB 1;OBS 'q',", vec![TokRec::Str(13, 14)], 1),
+    ];
+    let payloads: Vec<&[u8]> = vec![b"a\n;NB 5,c", b"x\ny", b"\n", b";,\"'#0\n\n;", b"a", b"", b"1,2;NB 9"];
+    let mut v = vec![];
+    for (p, toks, nb_before) in &prefixes {
+        for pl in &payloads {
+            let mut m = p.as_bytes().to_vec();
+            m.extend_from_slice(b"#0");
+            let a = m.len();
+            m.extend_from_slice(pl);
+            let b = m.len();
+            m.push(b'\n');
+            let mut t = toks.clone();
+            t.push(TokRec::Block(a, b));
+            v.push((m, t, *nb_before));
+        }
+    }
+    v
+}
+
+pub fn check_indefinite(tree: &'static Node<'static, RigDev>, msg: &[u8], toks: &[TokRec], nb_before: usize) -> Result<(), (String, String)> {
+    let mut dev = RigDev::new();
+    dev.plan[H_OBS as usize] = Plan { req: 0, opt: 4, ..Plan::NOP };
+    dev.plan[H_NB as usize] = Plan::pull(0, 4);
+    let mut out = Vec::new();
+    let m = esc(msg);
+    let r = guarded(|| run_vec(tree, &mut dev, msg, &mut out)).map_err(|p| ("panic".to_string(), format!("`{m}` panicked: {p}")))?;
+    if let Err(e) = r {
+        return Err(("indefinite-block-rejected".into(), format!("`{m}` failed with {}; the `#0` block runs to the terminating NL and is the unit's last element", e.get_code())));
+    }
+    let got: Vec<Pull> = dev.pulls.iter().filter(|p| p.handler == H_OBS).map(|p| p.pull).collect();
+    let mut exp: Vec<Pull> = toks.iter().map(|t| Pull::Tok(*t)).collect();
+    if exp.len() < 4 {
+        exp.push(Pull::Absent);
+    }
+    if got != exp {
+        return Err(("indefinite-block-extent".into(), format!("`{m}`: handler saw {:?}, expected {:?} (the block payload is everything up to the final NL)", got, exp)));
+    }
+    let nb_calls = dev.calls.iter().filter(|c| c.handler == H_NB).count();
+    if nb_calls != nb_before {
+        return Err(("indefinite-block-content-executed".into(), format!("`{m}`: the neighbour handler ran {nb_calls} times, expected {nb_before}: text inside the block was executed as a unit")));
+    }
+    Ok(())
+}
+
 pub fn run(ctx: &'static Ctx) -> i32 {
     let spec = tree();
     let shared = SharedTree::of(&spec);
@@ -392,7 +445,13 @@ pub fn run(ctx: &'static Ctx) -> i32 {
         },
         |i| cases[i as usize].to_json(),
     );
-    let (mut runs, mut nt) = (0, 0);
+    let ind = indefinite_cases();
+    for (j, (m, t, nb)) in ind.iter().enumerate() {
+        if let Err((k, w)) = check_indefinite(shared.node(), m, t, *nb) {
+            ctx.violation(total + j as u64, &k, &w, json!({"kind": "c06-indefinite", "index": j}));
+        }
+    }
+    let (mut runs, mut nt) = (ind.len() as u64, ind.len() as u64);
     for a in accs {
         runs += a.0;
         nt += a.1;
@@ -402,13 +461,18 @@ pub fn run(ctx: &'static Ctx) -> i32 {
     let mut c = cov();
     c.insert("evaluations".into(), json!(runs));
     c.insert("distinct_nontrivial".into(), json!(nt));
-    c.insert("rule".into(), json!(format!("observed unit `OBS[?]` with every n-tuple (n = 0..{}) over {} data representatives (character, NR3, number+suffix, #H, strings containing `;` and `,` and doubled quotes, block containing `;,;`, expression) x handler pull patterns (r required then o optional, r in 0..3, r+o <= 4) x unit position (first / middle / last, neighbours carry their own distinguishable data) x follower (end of input, NL, blank, trailing `;`) x event/query; separator spelling and nested/flat tree rotate. Oracle: pulls return the first min(n, r+o) elements of that unit with identical type and byte range; the next required pull gives -109, the next optional one None; n > r+o fails with -108 and the next unit's handler does not run; neighbours never see the observed unit's data. Each case is run twice: with a handler that pulls raw tokens and with one that uses the typed API (next_data::<u8> / next_optional_data::<u8>), where a present element must be offered (value or conversion error) and never reported absent. Distinct non-trivial = cases whose arity does not match exactly", ctx.tier.pick(3, 4), ELEMS.len())));
+    c.insert("rule".into(), json!(format!("observed unit `OBS[?]` with every n-tuple (n = 0..{}) over {} data representatives (character, NR3, number+suffix, #H, strings containing `;` and `,` and doubled quotes, block containing `;,;`, expression) x handler pull patterns (r required then o optional, r in 0..3, r+o <= 4) x unit position (first / middle / last, neighbours carry their own distinguishable data) x follower (end of input, NL, blank, trailing `;`) x event/query; separator spelling and nested/flat tree rotate. Oracle: pulls return the first min(n, r+o) elements of that unit with identical type and byte range; the next required pull gives -109, the next optional one None; n > r+o fails with -108 and the next unit's handler does not run; neighbours never see the observed unit's data. Each case is run twice: with a handler that pulls raw tokens and with one that uses the typed API (next_data::<u8> / next_optional_data::<u8>), where a present element must be offered (value or conversion error) and never reported absent. Plus a directed family of indefinite-length `#0` blocks whose payload contains NL, `;`, `,` and quotes (the block is everything up to the terminating NL; nothing inside it is another unit). Distinct non-trivial = cases whose arity does not match exactly", ctx.tier.pick(3, 4), ELEMS.len())));
     c.insert("exhaustive".into(), json!(true));
     c.insert("samples".into(), json!([esc(&s0), esc(&s1)]));
     ctx.finish("exploration", c, vec!["token payload ranges are compared as byte offsets into the message (string payloads keep doubled quotes, as C04 fixes)".into()])
 }
 
 pub fn replay(case: &Value) -> Result<String, String> {
+    if case["kind"] == "c06-indefinite" {
+        let ind = indefinite_cases();
+        let (m, t, nb) = ind.get(case["index"].as_u64().unwrap_or(0) as usize).unwrap_or_else(|| engine_failure("bad C06 replay index"));
+        return check_indefinite(tree().build(), m, t, *nb).map(|_| "conforms".to_string()).map_err(|(k, w)| format!("{k}: {w}"));
+    }
     let c = Case::from_json(case).unwrap_or_else(|| engine_failure("bad C06 replay"));
     let t = tree().build();
     check(t, &c).and_then(|_| check_typed(t, &c)).map(|_| "conforms".to_string()).map_err(|(k, w)| format!("{k}: {w}"))
